@@ -5,7 +5,7 @@ usage: seedtest.py <name> <property> <dir-with-mutation.diff-demo.py-NOTES.md> [
 
 1. scratch worktree of /repo HEAD under /tmp: demo on the clean tree (must exit 0), apply the patch, demo (must exit != 0),
    pinned test suite with the patch (must give the 46 baseline passes and only the 5 baseline failures);
-2. apply the patch to /repo, run the quick checks, undo (git checkout -- .);
+2. second scratch worktree with the patch: run the quick checks against it (BOB_REPO=<worktree>, VERIF_OUT=<scratch>), remove it;
 3. write /verif/seeded/<name>/{patch.diff, demo.py, NOTES.md, meta.json}.
 """
 import json
@@ -59,18 +59,21 @@ def main():
             meta["ran"].append(f"pinned suite with patch: {meta['suite_summary']} ({time.time() - t:.0f}s)")
     finally:
         sh(f"git -C /repo worktree remove --force {wt}")
-    # checks against /repo with the patch
+    # checks against a scratch worktree with the patch (BOB_REPO), evidence / replays redirected (VERIF_OUT): /repo is not touched
     man = json.load(open(os.path.join(V, "MANIFEST.json")))
     ids = [c["property_id"] for c in man["checks"]] if checks == "all" else checks.split(",")
-    assert sh("git -C /repo status --porcelain").stdout.strip() == "", "/repo not clean"
-    assert sh(f"git -C /repo apply {patch}").returncode == 0
+    mwt = f"/tmp/wt/mut-{name}"
+    out = f"/tmp/wt/out-{name}"
+    sh(f"git -C /repo worktree remove --force {mwt}")
+    assert sh(f"git -C /repo worktree add {mwt} HEAD").returncode == 0
+    assert sh(f"git -C {mwt} apply {patch}").returncode == 0
     results = {}
     try:
         from concurrent.futures import ThreadPoolExecutor
 
         def run(i):
             c = next(c for c in man["checks"] if c["property_id"] == i)
-            p = sh(c["quick_cmd"], cwd=V, timeout=3000, env=dict(os.environ, VERIF_SEED=os.environ.get("VERIF_SEED", "0")))
+            p = sh(c["quick_cmd"], cwd=V, timeout=3000, env=dict(os.environ, VERIF_SEED=os.environ.get("VERIF_SEED", "0"), BOB_REPO=mwt, VERIF_OUT=out))
             lines = [l for l in (p.stdout + p.stderr).splitlines() if "VIOLATION" in l or "KNOWN" in l or "INFRA" in l]
             first = None
             for l in lines:
@@ -84,11 +87,12 @@ def main():
                     break
             return i, {"exit": p.returncode, "violations": sum("VIOLATION" in l for l in lines), "first": first}
 
-        with ThreadPoolExecutor(6) as ex:
+        with ThreadPoolExecutor(int(os.environ.get("JOBS", "6"))) as ex:
             for i, r in ex.map(run, ids):
                 results[i] = r
     finally:
-        sh("git -C /repo checkout -- .")
+        sh(f"git -C /repo worktree remove --force {mwt}")
+        shutil.rmtree(out, ignore_errors=True)
     meta["checks"] = results
     meta["caught_by"] = sorted(i for i, r in results.items() if r["exit"] == 1)
     meta["caught_by_target"] = results.get(prop, {}).get("exit") == 1
